@@ -929,6 +929,7 @@ static const int walpha_small[] = { WO_OBJ_BEGIN, WO_OBJ_END, WO_ARR_BEGIN, WO_T
  * in the frame of a function that has returned would make every later call write into dead (soon: somebody else's) stack memory. */
 static __attribute__((noinline)) binson_parser *macro_static_default(void) { BINSON_PARSER_DEF_STATIC(sp); return &sp; }
 static __attribute__((noinline)) binson_parser *macro_static_depth(void) { BINSON_PARSER_DEF_DEPTH_STATIC(sq, 4); return &sq; }
+static __attribute__((noinline)) binson_parser *macro_static_deep(void) { BINSON_PARSER_DEF_DEPTH_STATIC(sr, 16); return &sr; }
 static bool near_stack(const void *a)
 {
     uintptr_t here = (uintptr_t) __builtin_frame_address(0), x = (uintptr_t) a;
@@ -940,7 +941,15 @@ static const char *macro_probe_run(void)
     BINSON_PARSER_DEF(la);
     BINSON_PARSER_DEF_DEPTH(lb, 3);
     if (near_stack(a) || near_stack(a->state) || near_stack(b) || near_stack(b->state)) return "a parser defined with a *_STATIC macro, or its state array, lives on the stack of the function that defined it";
-    if (a->max_depth != BINSON_PARSER_DEFAULT_DEPTH || b->max_depth != 4 || la.max_depth != BINSON_PARSER_DEFAULT_DEPTH || lb.max_depth != 3) return "a definition macro sets a max_depth other than the size of the state array it creates";
+    binson_parser *c = macro_static_deep();
+    BINSON_PARSER_DEF_DEPTH(lc, 16);
+    if (near_stack(c) || near_stack(c->state)) return "a parser defined with a *_STATIC macro, or its state array, lives on the stack of the function that defined it";
+    if (a->max_depth != BINSON_PARSER_DEFAULT_DEPTH || b->max_depth != 4 || c->max_depth != 16 || la.max_depth != BINSON_PARSER_DEFAULT_DEPTH || lb.max_depth != 3 || lc.max_depth != 16)
+        return "a definition macro sets a max_depth other than the size of the state array it creates";
+    /* init wipes max_depth state entries: under ASan an array smaller than the advertised depth traps here (static and automatic) */
+    static const uint8_t d0[] = { 0x40, 0x41 };
+    binson_parser *all[6] = { a, b, c, &la, &lb, &lc };
+    for (int i = 0; i < 6; i++) if (!binson_parser_init_object(all[i], d0, sizeof d0) || !binson_parser_verify(all[i])) return "a parser made by a definition macro rejects {}";
     return NULL;
 }
 static void macro_probe(void)
